@@ -52,9 +52,13 @@ let handle_obs (r : t) (case : string) (opno : int) (label : string) (kind : str
       if sv <> join_sorted (items_of value) then
         Printf.printf "ORACLE %s %d %s rib want=%s got=%s\n" case opno label sv value
   | "rnodes" ->
+      (* the routes of an entry are a set: compared sorted *)
       let mv = join_sorted (List.map (fun (nm, nd) ->
-                   string_of_name nm ^ "=" ^ (if nd.rn_named then "1" else "0") ^ "=" ^ routes_string nd.rn_routes) r.rib) in
-      if mv <> join_sorted (items_of value) then
+                   string_of_name nm ^ "=" ^ (if nd.rn_named then "1" else "0") ^ "=" ^ routes_string ~sorted:true nd.rn_routes) r.rib) in
+      let canon_impl = join_sorted (List.map (fun it -> match fields_of it with
+                   | [nm; named; rs] -> nm ^ "=" ^ named ^ "=" ^ sort_csv rs
+                   | _ -> it) (items_of value)) in
+      if mv <> canon_impl then
         Printf.printf "DIVERGE %s %d %s rnodes model=%s impl=%s\n" case opno label mv value;
       let impl = List.map (fun it -> match fields_of it with
                                      | [nm; named; rs] ->
